@@ -92,6 +92,14 @@ func mirrorExec(c *Ctx, op string) {
 	for _, p := range srcFiles {
 		before[p], _ = os.ReadFile(p)
 	}
+	// full snapshots (structure, attributes, content) of every source warehouse directory that exists
+	srcSnap := map[string]string{}
+	for i := range conds {
+		dir := filepath.Join(base, fmt.Sprintf("s%d", i))
+		if sn, e := Snapshot(dir); e == nil {
+			srcSnap[dir] = sn.Digest(true)
+		}
+	}
 	// which source is picked: the model's pick
 	c.EmitR(op+" #pick", "pick 0 "+strings.Join(pickToks, ";"), pickOnly(id, sources))
 	_, err1, pan1 := safeCall(func() (api.WareID, error) {
@@ -133,6 +141,22 @@ func mirrorExec(c *Ctx, op string) {
 		if !bytes.Equal(after, b) {
 			c.PropFail("source-mutated", "mirror modified a source warehouse: "+p, op)
 		}
+	}
+	checkSources := func(when string) {
+		for dir, dg := range srcSnap {
+			if sn, e := Snapshot(dir); e != nil || sn.Digest(true) != dg {
+				c.PropFail("source-mutated", when+" changed a source warehouse (files, directories or attributes): "+dir, op)
+			}
+		}
+	}
+	checkSources("mirror")
+	// unpack and scan read from warehouses too: the same list of sources, nothing may change
+	{
+		dstU := filepath.Join(base, "dst-u")
+		safeCall(func() (api.WareID, error) {
+			return fn.unpack(ctx, id, dstU, uf, rio.Placement_Direct, sources, rio.Monitor{})
+		})
+		checkSources("unpack")
 	}
 	if res == "ok" {
 		// the target alone serves W, identically
